@@ -798,14 +798,14 @@ Definition a_shift (a : astate) (d : Z) : astate :=
   mk_astate (a_children a) (a_phase a) (map (fun x => x - d) (a_restarts a)).
 
 (* one operation of the history, seen from the specification: [chs] = pid -> name before the
-   operation (who is the exiting pid), [spawned] = did the (single) spawn of a management call succeed *)
+   operation (who is the exiting pid), a management call makes at most one spawn: it fails iff fail = 1 *)
 Definition a_step (k : config) (a : astate) (chs : list (Z * Z)) (o : op) : astate :=
   match o with
   | OExit pid reason now _ =>
       a_exit k a (match lookup_pid pid chs with Some n => n | None => 0 end) reason now
-  | OStartChild name fail => a_start k a name (Nat.eqb fail 0)
-  | OAddChild name sg fail => a_add k a name sg (Nat.eqb fail 0)
-  | OEnableChild name fail => a_enable k a name (Nat.eqb fail 0)
+  | OStartChild name fail => a_start k a name (negb (Nat.eqb fail 1))
+  | OAddChild name sg fail => a_add k a name sg (negb (Nat.eqb fail 1))
+  | OEnableChild name fail => a_enable k a name (negb (Nat.eqb fail 1))
   | ODisableChild name => a_disable k a name
   | OShift d => a_shift a d
   end.
